@@ -50,12 +50,26 @@ def _inputs():
 INPUTS = _inputs()
 
 
+def _more_inputs():
+    rnd = random.Random(777)
+    out = {}
+    for n in (1, 2, 100, 1000, 65535, 65536, 65537, 131073, 200001):
+        out['random-%d' % n] = [bytes(rnd.getrandbits(8) for _ in range(n))]
+        out['text-%d' % n] = [(b'abcdefghij' * (n // 10 + 1))[:n][i:i + 50000] for i in range(0, n, 50000)]
+    return out
+
+
+THOROUGH_INPUTS = _more_inputs()
+
+
 def bounds(tier):
-    return {'inputs': list(INPUTS), 'short_stream_limit': 40, 'max_cuts': 2, 'edge_positions': 12 if tier == 'quick' else 24}
+    return {'inputs': list(INPUTS) + (list(THOROUGH_INPUTS) if tier != 'quick' else []), 'short_stream_limit': 40 if tier == 'quick' else 90,
+            'max_cuts': 2, 'edge_positions': 12 if tier == 'quick' else 40}
 
 
 def units(tier):
-    return [{'codec': c, 'input': name, 'tier': tier} for c in CODECS for name in INPUTS]
+    names = list(INPUTS) + (list(THOROUGH_INPUTS) if tier != 'quick' else [])
+    return [{'codec': c, 'input': name, 'tier': tier} for c in CODECS for name in names]
 
 
 def cases(unit):
@@ -79,7 +93,7 @@ def viol(codec, sym, detail):
 def run_case(case, acc):
     codec, name, tier = case['codec'], case['input'], case['tier']
     mod = CODECS[codec]
-    chunks_in = INPUTS[name]
+    chunks_in = INPUTS[name] if name in INPUTS else THOROUGH_INPUTS[name]
     data = b''.join(chunks_in)
     out = []
     sink = run([mod.compress()], chunks_in)
@@ -95,11 +109,11 @@ def run_case(case, acc):
     if ref != data:
         return [viol(codec, 'reference-decoder-yields-other-bytes', {'input': name})]
     L = len(comp)
-    short = L <= 40
+    short = L <= (40 if tier == 'quick' else 90)
     if short:
         cutsets = list(spaces.cut_sets(L, 2))
     else:
-        e = 12 if tier == 'quick' else 24
+        e = 12 if tier == 'quick' else 40
         pos = sorted(set(list(range(1, e + 1)) + list(range(L - e, L)) + [p for p in (65536, 65537, 131072) if p < L]))
         cutsets = [()] + [(p,) for p in pos] + [(p, q) for i, p in enumerate(pos) for q in pos[i + 1:]]
         if len(data) > 100000:
